@@ -94,11 +94,48 @@ NA = {
  "C19": "behaviour lives in value-bag/serde/sval and proc-macro expansion; emit's code is one-line delegation (Value::capture_display etc.), a contract on it would restate the dependency's; a Kani harness for the primitive part (capture-default of integers/bool/f64 pulled back typed, optional None adds nothing) was tried and CBMC does not finish in 15 min on value-bag's capture path (DESIGN-experiments/kani_pub_c19_*); DESIGN.md section 9",
  "C20": "quantifies over thread schedules of std::sync::OnceLock initialisation; Kani has no threads, Verus has no OnceLock model; a Kani harness for the sequential part only (inert before init, first init wins, second fails and is never used) was tried and CBMC does not finish in 15 min (DESIGN-experiments/kani_pub_c20_*); DESIGN.md section 9",
 }
+
+# extension phase (DESIGN 13.8): additions to the level texts and replacements of notes that went stale
+ADD_TEXT = {
+ "C01": " Extension: every ToExtent impl and the Extent constructors / accessors (core_extent) so that the event's own extent is what filter and destinations see; two Kani oracle harnesses for the emit!(evt: ..) entry point; wrapping::from_filter with a symbolic own extent; the span-start filter sees the span's level first, as the completions emit it (defect F26 repaired and pinned by emit_begin_span).",
+ "C02": " Extension: the trait's DEFAULT get / pull / is_unique / dedup / and_props are real text (the visitor closure's real body spliced over an enumeration oracle; lemma_for_each_is_loop), Dedup::for_each against an assumed BTreeMap model, BTreeMap / HashMap props, the erased get / is_unique, ThreadLocalCtxtFrame / TraceparentCtxtProps / ExcludeTraceparentProps enumerations, Str's equality / order / hash PROVED on the real impls (core_str_cmp), the proc-macro side of macro props (macros_props).",
+ "C03": " Extension: rule R17 makes destructor and panic-unwinding edges explicit in the extracted real text - Frame::call, FrameFuture::poll and the FrameFuture destructor leave the frame exactly once on the normal AND the unwinding path (emit_frame_unwind); a disabled frame adds nothing as a trait-level contract incl. added overrides; the dispatch harness covers &C, dyn, Option, Box, Arc, AssertInternal (F27); FrameFuture dropped early drops its future inside the frame (F29).",
+ "C04": " Extension: the #[span] expansion functions as program transformers over a ghost token model (macros_span: begin_span call with each stream in the position of the real signature, setup before it, body inside the frame closure after start, in_future awaited); traceparent frames carry the current traceparent across threads (F28); typed-id fast path of the frame storage judged against parse / cast siblings.",
+ "C05": " Extension: the completion expansion (default level / panic level / ok / err levels in the positions of the real hook signatures), Timer::to_extent / by_ref, the FrameFuture destructor (a cancelled async span completes inside its frame, F29).",
+ "C06": " Extension: Watchers proved on the real impl for any number of callbacks and any panic pattern (batcher_watchers; the receiver / sender units assume that same clause text), a spelling-independent outcome contract of send_or_wait, Counter::increment_by as one atomic step also for C06.",
+ "C07": " Extension: tokio blocking entry points under a calling-context token model (F20 repaired), the file worker makes events written before a failed write durable or hands them all back (F21), every OTLP signal's flush gets the remaining time.",
+ "C08": " Extension: Watchers for unbounded callbacks incl. catch_unwind moved around the loop; no user code under the channel's state lock (guard lifetimes) in exec and sample_metrics; the OTLP worker completes only when every signal's receiver has (F18, FuturesUnordered model); blocking flush / send from any tokio context without panicking (F20); thread spawn call shapes.",
+ "C09": " Extension: lock released before the sampler / watchers / processor run; send_or_wait outcome; EventBatch::clear incl. Vec::drain siblings; OtlpInner::emit route with the event's extent.",
+ "C10": " Extension: Worker::on_batch as ONE extracted function with a ghost trail (directory creation, the single listing, reuse candidate, roll predicate incl. the recovery separator, retention, created name, write loop): every early exit hands back the whole batch; a failed write leaves the written events durable or rewinds the batch (F21); the default writer's visitor closure (untagged key labels, an Ok record is complete: F19); builder value flow.",
+ "C11": " Extension: names from the real format strings with theorems (fixed width, numeric = text order, period order, round trip for dotted prefixes, created names are members of their own set); ActiveFileSet::read whole; retention also when a reopened file is kept and the fit check counts the recovery separator (F31); StdFile::len is the file's length (Seek siblings).",
+ "C12": " Extension: the worker drains every signal's receiver (F18); the per-batch retry budget (batcher_receiver, also for C12); when_flushed (batcher_sender, also for C12).",
+ "C13": " Extension (still partial, category other): call-sequence contracts of the OTLP log record / span adapters (layout with schema-checked field numbers, lifted iff the value converts else an ordinary attribute: F24, status and exception event as iffs, ids binary / fixed-width hex), sval labels and indices of the metric records read from the real derive attributes and related to the generated prost schema (F30), the metrics value visitor over sval's transcribed default integer chain (F22), the f64 running total as a structure over uninterpreted + / as f64, the file default writer's visitor (F19), the terminal writer's output as a ghost trace; open findings F11 (todo!() for non-string map keys) and F25 (duplicate exception.* attribute key).",
+ "C14": " Extension: every numeric width is a metric point (F22), an unconfigured emitter counts what it drops (F23), KindFilter on the full three-form cast, Kind::from_str with trim siblings, into_points total for every extent.",
+ "C15": " Extension: Display for Traceparent against the byte-level shape + round-trip lemma, Path constructors and FromValue for Path, Value::parse's visit_str parses exactly its text (trim siblings), fmt_rfc3339 precision clamp, id FromValue order.",
+ "C16": " Extension: the proc-macro side (macros_template: text fragments unchanged, one hole part per hole; macros_fmt: flags reach the format string exactly as written), Str equality under template equality (core_str_cmp), the writer units observe the sink flattened plus a write_text call counter.",
+ "C17": " Extension: Str's Ord proved (core_str_cmp: an address-only fast path fails), MinLevelFilter / MinLevelPathMap builder methods under full-state contracts (last call wins), From<Level> for MinLevelFilter.",
+ "C18": " Extension: AssertInternal forwards open_disabled (F27), frames carry the traceparent current at creation (F28; open_post re-derived from the property, lemma_open_carries), the two for_each of the traceparent props under the enumeration contract, Frame::call's unwinding path.",
+}
+NOTE_OVERRIDE = {
+ "C02": "trusted: Str/Value mirrors (Str::get / eq / cmp restate what core_str_cmp proves), the enumeration oracle behind the spliced default get (its reading of for_each is derived by lemma_for_each_is_loop), std BTreeMap / HashMap models, lawful key types for map props; the erased for_each (&mut dyn FnMut) stays a BOUNDED Kani harness; see specs/assumptions/C02.txt",
+ "C03": "trusted: isolation between threads (std thread_local!), that unwinding runs exactly the live locals' destructors in reverse order (Rust semantics; R17 makes those edges explicit), the destructor bodies as mirrors in the Verus unit (Kani obligations on the real code), HashMap/Entry/Arc::make_mut by assumed specs; Frame::with's guard temporary is covered on the normal path only",
+ "C05": "trusted: CBMC/Kani; std::thread::panicking() is an unconstrained boolean (both branches verified); the token-shape -> program gap of the macro units (the generated call is assumed to parse to the named hook)",
+ "C06": "trusted: std::sync::Mutex mutual exclusion (lock model R4, poisoning ignored), a boxed FnOnce callback is an opaque value called once by catch_unwind with an unconstrained panic outcome (cross-checked by a bounded Kani harness), processor behaviour",
+ "C08": "wall-clock bounds not applicable; tokio's documented panics are preconditions of the mirrors (LocalSet on a multi-thread runtime and runtimes without enable_time excluded); nothing joins worker threads on drop (termination = close-on-drop + exec returning); Duration arithmetic via three trusted facts",
+ "C10": "single-operation faults at every Filesystem / File operation; durable content tracked by logged Sync effects within one run; crash points between operations and multi-restart histories are not applicable; trusted: std path / format! meaning, Clock::now / Rng::gen_u64 yield Some, resource bounds (sizes fit usize); see specs/assumptions/C10.txt",
+ "C11": "trusted: std path / format! meaning through a mirror macro over the real format strings, directory iteration order, sort_by by its std contract; two files created within the same millisecond order by random id; statements about the directory vs the worker's belief across restarts are not reachable",
+ "C13": "partial: what sval_json / sval_protobuf / serde / termcolor produce from the proved call sequences is trusted; the terminal sparkline's f64 glyph index is not covered (no float reasoning in Verus, CBMC undecided); Display / sval::Value impls that fail spuriously are outside the grammar of value shapes; see specs/assumptions/C13.txt",
+ "C16": "trusted: Str/Formatter/Value mirrors (uninterpreted views), Template::as_literal mirror, Write/Props trait mirrors, cmp::min spec; fv-template's literal scanning and un-escaping; the generated token shape is assumed to parse to the named calls",
+ "C17": "trusted: Path::segments as a Vec of segments, binary_search_by_key by its std contract on a sorted slice, Event/Props mirrors; <str as Ord>::cmp = lexicographic byte order and the one unsafe deref in Str::get",
+}
+
 checks = []
 for pid in sorted(P):
     claimed, level, text, note, tech, ref = P[pid]
     if not claimed:
         continue
+    text = text + ADD_TEXT.get(pid, "")
+    note = NOTE_OVERRIDE.get(pid, note)
     checks.append({
         "property_id": pid,
         "quick_cmd": "./check %s --tier quick" % pid,
